@@ -338,7 +338,7 @@ func genPointD(t *rapid.T, gi *GroupInfo, label string, depth int) PVal {
 		classes = append(classes, "pair", "pair")
 	}
 	if depth > 0 {
-		classes = append(classes, "sum", "sum", "diff", "dbl", "mulof")
+		classes = append(classes, "sum", "sum", "diff", "dbl", "mulof", "clone", "setof", "negof")
 	}
 	if len(shortCoordMultipliers(gi)) > 0 {
 		classes = append(classes, "shortcoord")
@@ -419,6 +419,20 @@ func genPointD(t *rapid.T, gi *GroupInfo, label string, depth int) PVal {
 			pv.P, pv.Desc = markVT(gi, g.Point().Sub(a.P, b.P)), "("+a.Desc+"-"+b.Desc+")"
 		}
 		pv.NonN = true
+	case "clone", "setof", "negof":
+		// the same value in another OBJECT: whatever an implementation keeps beside the coordinates
+		// (cached squares, lazily computed encodings, a suite's domain tag) must travel with Clone
+		// and Set; the negative of an affine / decoded / identity value keeps its special form
+		a := genPointD(t, gi, label+".a", depth-1)
+		switch cls {
+		case "clone":
+			pv.P, pv.Desc = markVT(gi, a.P.Clone()), "clone("+a.Desc+")"
+		case "setof":
+			pv.P, pv.Desc = markVT(gi, g.Point().Set(a.P)), "set("+a.Desc+")"
+		default:
+			pv.P, pv.Desc = markVT(gi, g.Point().Neg(a.P)), "-("+a.Desc+")"
+		}
+		pv.Edge, pv.NonN = a.Edge, a.NonN
 	case "dbl":
 		a := genPointD(t, gi, label+".a", depth-1)
 		pv.P, pv.Desc, pv.NonN = markVT(gi, g.Point().Add(a.P, a.P)), "2("+a.Desc+")", true
